@@ -71,8 +71,10 @@ package nbt
 // rawRead skips one value of the given tag type (unknown-field skipping, RawMessage). It must
 // consume exactly the value's bytes, reject unknown tag ids and negative declared lengths, and
 // report reader failure. For lists and compounds the element walk is recursive; the contract
-// states there only what the recursion can carry without a recursive specification function:
-// progress, rejection of a negative element count, failure propagation.
+// states there what the recursion can carry without a recursive specification function:
+// exact consumption for lists whose elements have a fixed width (byte, short, int, long, float,
+// double: 5 + width * count bytes), and for the other lists and for compounds progress, rejection
+// of a negative element count and failure propagation.
 //@ define dtag(row, p) = int(u(at(row, p)))
 //@ func (*Decoder).rawRead(d; tagType) (err)
 //@   let st = stream(d.r)
@@ -80,6 +82,8 @@ package nbt
 //@   let p0 = old(Spos(st))
 //@   let L16 = int(int16(be16(row, p0)))
 //@   let L32 = int(int32(be32(row, p0)))
+//@   let LT = dtag(row, p0)
+//@   let LL = int(int32(be32(row, p0 + 1)))
 //@   requires !isnil(d.r)
 //@   loop 0: modifies stream(d.r)
 //@   loop 0: invariant 0 <= i && i <= L32 && L32 >= 0 && Spos(st) == p0 + 4 + 4*i && !Sfail(st)
@@ -87,6 +91,8 @@ package nbt
 //@   loop 1: invariant 0 <= i && i <= L32 && L32 >= 0 && Spos(st) == p0 + 4 + 8*i && !Sfail(st)
 //@   loop 2: modifies stream(d.r)
 //@   loop 2: invariant 0 <= i && Spos(st) >= p0 + 5 && !Sfail(st) && int(int32(be32(row, p0 + 1))) >= 0
+//@   loop 2: invariant i <= LL && (LT == 1 ==> Spos(st) == p0 + 5 + i) && (LT == 2 ==> Spos(st) == p0 + 5 + 2*i)
+//@   loop 2: invariant ((LT == 3 || LT == 5) ==> Spos(st) == p0 + 5 + 4*i) && ((LT == 4 || LT == 6) ==> Spos(st) == p0 + 5 + 8*i)
 //@   loop 3: modifies stream(d.r)
 //@   loop 3: invariant Spos(st) >= p0 && !Sfail(st)
 //@   ensures err == nil ==> 1 <= int(tagType) && int(tagType) <= 12                  [@reject]
@@ -102,6 +108,10 @@ package nbt
 //@   ensures err == nil && tagType == 10 ==> Spos(st) >= p0 + 1                      [@consume]
 //@   ensures Sfail(st) ==> err != nil                                                [@errprop]
 //@   ensures Spos(st) >= p0                                                          [@consume]
+//@   ensures err == nil && tagType == 9 && LT == 1 ==> Spos(st) == p0 + 5 + LL                       [@consume]
+//@   ensures err == nil && tagType == 9 && LT == 2 ==> Spos(st) == p0 + 5 + 2*LL                     [@consume]
+//@   ensures err == nil && tagType == 9 && (LT == 3 || LT == 5) ==> Spos(st) == p0 + 5 + 4*LL        [@consume]
+//@   ensures err == nil && tagType == 9 && (LT == 4 || LT == 6) ==> Spos(st) == p0 + 5 + 8*LL        [@consume]
 //@   modifies stream(d.r)                                                            [@frame]
 
 //@ func (*Decoder).readTag(d) (tagType, tagName, err)
